@@ -352,7 +352,7 @@ def field_table(value: bytes) -> typing.Tuple[int, common.FieldTable]:
             consumed, result = embedded_value(value[offset:])
             offset += consumed
             data[key] = result
-        return field_table_end, data
+        return offset, data
     except TypeError:
         raise ValueError('Could not unpack data')
 
